@@ -19,6 +19,12 @@ def scenarios(seed, tier, failed):
     for restart in (False, True):
         yield {'kind': 'order', 'first': [1000, 1000, 1000], 'later': [1000, 1000, 1000], 'sub': 'fifo',
                'restart': restart, 'timeout': 30}
+    # stop() while the delivery thread is busy and a backlog waits, then start() again
+    for n in (2, 5, 6, 9):
+        yield {'kind': 'order', 'first': [1000] * (n + 1), 'later': [], 'sub': 'fifo', 'restart': False,
+               'stop_while_busy': True, 'timeout': 30}
+    yield {'kind': 'order', 'first': [5, 1000, 1, 1000, 5, 1000, 1000], 'later': [], 'sub': 'lifo', 'restart': False,
+           'stop_while_busy': True, 'timeout': 30}
     for _ in range(20 if tier == 'quick' else 400):
         n = rnd.randint(4, 14)
         yield {'kind': 'order', 'first': [rnd.choice([1, 5, 1000]) for _ in range(n)],
@@ -67,6 +73,16 @@ def run(sc):
             expected.append((p, k))
             k += 1
         time.sleep(0.05)
+        if sc.get('stop_while_busy'):
+            st = threading.Thread(target=af.stop, daemon=True)
+            st.start()
+            time.sleep(0.05)
+            release.set()
+            st.join(3.0)
+            if st.is_alive():
+                return False, 'stop() did not return', 'stop:'
+            time.sleep(0.05)
+            af.start()
         release.set()
         t0 = time.time()
         while len(q) < len(expected) and time.time() - t0 < 2.0:
